@@ -9,7 +9,8 @@ one member
 * after the real code has observed another member of the family (history "after:<operation>").
 
 Both signatures must be equal: the form was built in the same way both times.  Families: one mesh, several meshes
-with ordinary spaces, a mixed space on a MeshSequence, a MixedFunctionSpace.
+with ordinary spaces, a mixed space on a MeshSequence, a MixedFunctionSpace; each family also contains sums of its
+members, which share the members' Integral objects.
 """
 
 import ufl
@@ -180,9 +181,27 @@ def _burn(p):
         ufl.Constant(_mesh("triangle", 2))
 
 
+def with_sums(make):
+    """The family plus sums of its members: Form.__add__ puts the very same Integral objects into the sum, so a form
+    and its pieces share objects (state left on an Integral by one signature computation is seen by the other)."""
+
+    def made(p):
+        forms = list(make(p))
+        n = len(forms)
+        if n >= 2:
+            forms.append(forms[0] + forms[1])
+            forms.append(forms[n - 1] + forms[0])
+        if n >= 3:
+            forms.append(forms[2] + forms[1] + forms[0])
+            forms.append(sum(forms[1:3], forms[n - 1]))
+        return forms
+
+    return made
+
+
 def run(p):
     """Returns (status, detail).  status: 'equal' | 'differs' | 'rejected'."""
-    make = FAMILIES[p["family"]]
+    make = with_sums(FAMILIES[p["family"]])
     try:
         forms = make(p)
         nb = len(forms)
